@@ -574,7 +574,8 @@ fn build_write_script(rng: &mut Rng, w: u64) -> Vec<WStep> {
         // five episodes in one workload, each on its own stream
         for v in 0..5usize {
             s.push(WStep::OpenNew { slot: 0, path: format!("/a{v}") });
-            let first: &[usize] = if v == 3 { &[1024, 1024, 1024, 1024, 904] } else { &[1024, 1024, 1024, 928] };
+            // (streams 3 and 4 are regular - 5000 bytes -, the others small - 4000 bytes)
+            let first: &[usize] = if v >= 3 { &[1024, 1024, 1024, 1024, 904] } else { &[1024, 1024, 1024, 928] };
             for l in first {
                 s.push(WStep::Write { slot: 0, len: *l });
             }
@@ -627,7 +628,7 @@ fn build_write_script(rng: &mut Rng, w: u64) -> Vec<WStep> {
                     s.push(WStep::FlushHandle { slot: 0 });
                 }
                 _ => {
-                    // truncating re-creation
+                    // truncating re-creation (of a regular stream: its whole chain is released)
                     s.push(WStep::Interlude(inter));
                     s.push(WStep::OpenNew { slot: 0, path: format!("/a{v}") });
                     s.push(WStep::Write { slot: 0, len: 30 });
@@ -868,6 +869,8 @@ struct HState {
     /// the taint comes from a failed set_len(n) and nothing else: the stream is then either
     /// as it was (all accepted bytes) or resized to n (zeros gained) - `Some(n)`
     failed_set_len: Option<u64>,
+    /// value of `WState::taint_epoch` when the handle was opened
+    epoch: u32,
 }
 
 struct WState {
@@ -877,6 +880,9 @@ struct WState {
     api: u32,
     writes: u64,
     structure_tainted: bool,
+    /// counts the structural calls that failed so far: a stream created after the latest one
+    /// is known although the tree as a whole is not
+    taint_epoch: u32,
     /// some API call failed and never succeeded when retried
     unrecovered: bool,
     /// the fault plan tears a write (grants a strict prefix, then fails)
@@ -954,7 +960,7 @@ fn w_exec(st: &mut WState, step: &WStep, rep: &mut Report) -> Result<Result<(), 
                         }
                         st.shared.pause_faults(false);
                     }
-                    st.handles[*slot] = Some(HState { stream: s, path: path.clone(), pos: 0, content, tainted, last_flush_failed: false, failed_set_len: None });
+                    st.handles[*slot] = Some(HState { stream: s, path: path.clone(), pos: 0, content, tainted, last_flush_failed: false, failed_set_len: None, epoch: st.taint_epoch });
                     Ok(())
                 }
                 Err(e) => Err(e),
@@ -1164,7 +1170,9 @@ fn w_exec(st: &mut WState, step: &WStep, rep: &mut Report) -> Result<Result<(), 
                         }
                         // a successful flush means durable: a fresh handle reads back every
                         // accepted byte - also when the previous flush attempt had failed
-                        if !h.tainted && !st.structure_tainted {
+                        // (a stream created after the latest failed structural call is known, even
+                        // while the tree as a whole is not)
+                        if !h.tainted && (!st.structure_tainted || h.epoch == st.taint_epoch) {
                             let path = h.path.clone();
                             let want = h.content.clone();
                             let mut got = Vec::new();
@@ -1225,6 +1233,7 @@ fn w_exec(st: &mut WState, step: &WStep, rep: &mut Report) -> Result<Result<(), 
             let r = st.cf.remove_stream(p);
             if r.is_err() {
                 st.structure_tainted = true;
+                st.taint_epoch += 1;
             }
             r
         }
@@ -1250,6 +1259,7 @@ fn w_exec(st: &mut WState, step: &WStep, rep: &mut Report) -> Result<Result<(), 
     }
     if r.is_err() && matches!(step, WStep::CreateStorage(_) | WStep::OpenNew { .. }) {
         st.structure_tainted = true;
+        st.taint_epoch += 1;
     }
     Ok(r.map_err(|e| e.kind()))
 }
@@ -1429,7 +1439,7 @@ fn w_run_observed(script: &[WStep], version: Version, faults: Vec<Fault>, rep: &
     if let Some(n) = fault_free_calls {
         shared.set_step_budget(50 * n + 20_000);
     }
-    let mut st = WState { shared: shared.clone(), cf, handles: Vec::new(), api: 0, writes: 0, structure_tainted: false, unrecovered: false, torn, state_set: Vec::new(), durable: Vec::new(), own_file, interlude: None, pending: false };
+    let mut st = WState { shared: shared.clone(), cf, handles: Vec::new(), api: 0, writes: 0, structure_tainted: false, taint_epoch: 0, unrecovered: false, torn, state_set: Vec::new(), durable: Vec::new(), own_file, interlude: None, pending: false };
     let kind_counts = |sh: &Shared| {
         // (numbered as the fault plan numbers them: the harness's own paused read-backs
         // do not count)
